@@ -44,7 +44,7 @@ LEVEL_NOTE = ("Trusts the harness' own unified-diff reader and positional "
               "patcher (60 lines, self-checked on the unperturbed text); "
               "patiencediff and difflib are trusted only to produce *some* "
               "opcodes - a wrong diff is caught by the round trip.")
-REGISTERED = False
+REGISTERED = True
 NONTRIVIAL_FLOOR = {"quick": 2000, "thorough": 50000}
 
 NO_NL = b"\\ No newline at end of file\n"
